@@ -245,7 +245,9 @@ func runC14(c *Ctx) {
 	// release: sink is the non-queueing writer; pointer cleared in the same critical section
 	ens := c.MustFunc(pkgNetmc + ":(*minecraftConn).ensurePlayPacketQueue")
 	if ens != nil {
-		for _, ci := range callsIn(ens, func(n string, cc *ssa.CallCommon) bool { return strings.HasSuffix(n, "queue.PlayPacketQueue).ReleaseQueue") }) {
+		for _, ci := range callsIn(ens, func(n string, cc *ssa.CallCommon) bool {
+			return strings.HasSuffix(n, "queue.PlayPacketQueue).ReleaseQueue")
+		}) {
 			sink := ci.Common().Args[1]
 			okSink := false
 			if mc, ok := sink.(*ssa.MakeClosure); ok {
